@@ -34,6 +34,30 @@ def affine_exact(op):
     return [[int(v) for v in row] for row in R], [_frac(float(v)) for v in t]
 
 
+_TABLE = None
+
+
+def _table():
+    global _TABLE
+    if _TABLE is None:
+        import json
+        import os
+        import chmpy.crystal.space_group as sgmod
+        _TABLE = json.load(open(os.path.join(os.path.dirname(sgmod.__file__), "sgdata.json")))
+    return _TABLE
+
+
+def _table_codes(number, choice):
+    rows = [r for r in _table()[str(number)] if str(r[6]) == str(choice)]
+    if not rows:
+        rows = _table()[str(number)][:1]
+    return rows[0][8]
+
+
+def _other_choices(number, choice):
+    return [str(r[6]) for r in _table()[str(number)] if str(r[6]) != str(choice)]
+
+
 def cell_for(number, choice):
     from chmpy.crystal.unit_cell import UnitCell
     if 143 <= number <= 194 and choice != "R":
@@ -56,10 +80,10 @@ def cell_for(number, choice):
 def orbit_reference(number, choice, sites, occ):
     """exact orbit classes: list of dict(k=site, frac=[Fraction]*3, occ=Fraction, ops=[codes])"""
     from chmpy.crystal.space_group import SpaceGroup
-    sg = SpaceGroup(number, choice) if choice else SpaceGroup(number)
+    from chmpy.crystal.symmetry_operation import SymmetryOperation
     classes = []
     for k, x in enumerate(sites):
-        for op in sg.symmetry_operations:
+        for op in [SymmetryOperation.from_integer_code(int(c)) for c in _table_codes(number, choice)]:
             R, t = affine_exact(op)
             u = [sum(R[i][j] * x[j] for j in range(3)) + t[i] for i in range(3)]
             w = tuple(v - (v.numerator // v.denominator) for v in u)
@@ -83,6 +107,8 @@ def _replay_orbit_one(data):
     occ = [Fraction(v) for v in data["occ"]]
     Z = [int(z) for z in data["Z"]]
     labels = list(data.get("labels") or ["X%d" % i for i in range(len(Z))])
+    for other in _other_choices(number, choice)[:1]:
+        SpaceGroup(number, other)       # a different setting of the same group first
     sg = SpaceGroup(number, choice) if choice else SpaceGroup(number)
     uc = cell_for(number, choice)
     au = AsymmetricUnit([Element[z] for z in Z], np.array([[float(v) for v in row] for row in sites]), labels=np.array(labels),
@@ -292,8 +318,13 @@ def run_setting(ctx, mods, number, choice, nsites, mode, tolerance=None, max_pat
     X = np.array([[Sym(z3.Real("x%d_%d" % (k, c))) for c in range(3)] for k in range(nsites)], dtype=object).view(OArr)
     occ = np.array([Sym(z3.Real("occ%d" % k)) for k in range(nsites)], dtype=object).view(OArr)
     Z = [6, 8, 7][:nsites]
+    # another setting of the same group is constructed first: what a setting is must not depend on what was built before
+    for other in _other_choices(number, choice)[:1]:
+        mods.sgm.SpaceGroup(number, other)
     sg = mods.sgm.SpaceGroup(number, choice) if choice else mods.sgm.SpaceGroup(number)
-    ops = [affine_exact(op) for op in sg.symmetry_operations]
+    # reference operations: the codes tabulated for exactly this (number, choice), decoded by the real decoder
+    from chmpy.crystal.symmetry_operation import SymmetryOperation as _SO
+    ops = [affine_exact(_SO.from_integer_code(int(c))) for c in _table_codes(number, choice)]
     ex.base = [z3.And(x.t >= -3, x.t <= 3) for x in X.flat] + [z3.And(o.t > 0, o.t <= 1) for o in occ]
     reg = []
     mods.cm.KDTree = make_kdtree(reg, mode)
